@@ -7,7 +7,8 @@ ASSUMPTIONS = [
     'thread budget of the mock: at most numPoolThreads stored closures in progress, plus one on the calling thread while it '
     'is inside scheduleBulk()/wait() and not executing loop work itself',
     'concurrency = overlapping lifetimes with proper nesting: a closure started during a body invocation finishes before '
-    'that invocation resumes; at most VF_DEPTH invocations in flight',
+    'that invocation resumes; at most N+1 invocations in flight; only the first 2 body invocations of a task (and of the '
+    'caller) contain a scheduling point',
     'the caller is an external thread, not inside an enclosing parallel_for; allocSmallBufferImpl = malloc; '
     'CpuSet::l3CacheGroups() is empty',
 ]
@@ -26,7 +27,7 @@ def inst(name, N, S, mode=0, wait=2, depth=2, cont=0, api=0, tiers=('quick', 'th
          thorough=None, **kw):
     defs = {'VF_N': N, 'VF_S': S, 'VF_MODE': mode, 'VF_WAIT': wait, 'VF_DEPTH': depth, 'VF_CONT': cont, 'VF_API': api}
     defs.update(kw)
-    d = {'name': name, 'src': 'states.cpp', 'engine': 'cbmc', 'defs': defs, 'models': ['aligned_alloc'], 'rt_defs': {'VF_SCALAR_INLOG': 1},
+    d = {'name': name, 'src': 'states.cpp', 'engine': 'cbmc', 'defs': defs, 'models': ['aligned_alloc'],
          'unwind': unwind or max(S + 2, N + 3), 'timeout': timeout, 'tiers': list(tiers),
          # multi-group dynamic scheduling needs > 16 workers: unreachable here, the unwinding assertion proves it
          'unwind_fn': {'re:parallel_for_dynamicMultiGroupImpl.*_clI': 1},
@@ -45,9 +46,16 @@ Q = ('quick', 'thorough')
 TH = ('thorough',)
 EX = ('experimental',)
 INSTANCES = [
-    inst('static_n1', 1, 6),
-    inst('static_n2', 2, 6, depth=3, tiers=EX, timeout=400),
-    inst('auto_nowait_n1', 1, 4, mode=1, wait=0, tiers=EX, timeout=400),
-    inst('auto_wait_n1', 1, 6, mode=1, wait=1, tiers=EX, timeout=400),
-    inst('chunk_n1', 1, 6, mode=2, tiers=EX, timeout=400),
+    # static chunking (decided).  On /repo these report the static / no-wait / tail defect (see NOTES.md).
+    inst('static_n1', 1, 6, timeout=290, thorough={'timeout': 1500}),
+    inst('static_n2', 2, 6, depth=3, tiers=TH, timeout=1500),
+    # wired but never run to completion / too big (see NOTES.md): --tier experimental --only <name>
+    inst('static_n1_startend', 1, 6, api=1, tiers=EX, timeout=900),
+    inst('static_n1_index', 1, 4, api=2, tiers=EX, timeout=900, VF_SPK=1),
+    inst('static_n1_list', 1, 6, cont=1, tiers=EX, timeout=900),
+    inst('static_n1_deque', 1, 6, cont=2, tiers=EX, timeout=900),
+    inst('static_n1_vector', 1, 6, cont=3, tiers=EX, timeout=900),
+    inst('auto_nowait_n1', 1, 4, mode=1, wait=0, tiers=EX, timeout=1500),
+    inst('auto_wait_n1', 1, 4, mode=1, wait=1, tiers=EX, timeout=1500),
+    inst('chunk_n1', 1, 4, mode=2, tiers=EX, timeout=1500),
 ]
